@@ -30,6 +30,20 @@ def handleStyleMap (j : Json) : Except String Json := do
   let (styles, msgs) := readStyleMap t
   pure <| Json.mkObj [("styles", Json.arr (styles.map styleToJson).toArray), ("messages", Json.arr (msgs.map str).toArray)]
 
+/-- `re.compile(pattern).match(s)` in the cost model of MammothModel/Regex.lean: whether the pattern is inside the
+    fragment of `c07_parseRegex`, the length of the match (`match.end()`, null = no match) and the steps spent -/
+def handleRxMatch (j : Json) : Except String Json := do
+  let p ← getS j "pattern"
+  let s ← getS j "s"
+  match c07_parseRegex p with
+  | none => pure <| Json.mkObj [("parsed", Json.bool false), ("len", Json.null), ("steps", Json.num (0 : Nat))]
+  | some r =>
+    let res := r.exec s
+    let len := match res.2 with
+      | some rest => Json.num (s.length - rest.length : Nat)
+      | none => Json.null
+    pure <| Json.mkObj [("parsed", Json.bool true), ("len", len), ("steps", Json.num res.1)]
+
 def imageConvOfJson (j : Json) : Except String ImageConv :=
   match j.getObjVal? "imageConv" with
   | .ok c =>
@@ -120,6 +134,7 @@ def handle (line : String) : Json :=
       | "html" => handleHtml j
       | "tokenise" => handleTokenise j
       | "stylemap" => handleStyleMap j
+      | "rxmatch" => handleRxMatch j
       | "api" => handleApi j
       | "convertdoc" => handleConvertDoc j
       | "dom" => Ops2.handleDom j
